@@ -452,32 +452,62 @@ func runC06(c *Ctx, r *Run) {
 		// (party.ID.WriteTo fails for the empty To of every broadcast)
 		okInd := true
 		detail := ""
-		for _, w := range writes {
-			if w.Call.StaticCallee().Name() != "WriteAny" {
-				continue
+		// itemsOf: how many items a variadic call passes (0 = none, -1 = an unknown number: a slice that is spread)
+		itemsOf := func(call *ssa.Call) int {
+			if len(call.Call.Args) == 0 {
+				return 0
 			}
-			items := 0
-			if sl, ok := w.Call.Args[len(w.Call.Args)-1].(*ssa.Slice); ok {
+			last := call.Call.Args[len(call.Call.Args)-1]
+			if isNilConst(last) {
+				return 0
+			}
+			if sl, ok := last.(*ssa.Slice); ok {
 				if a, ok := sl.X.(*ssa.Alloc); ok {
 					if arr, ok := a.Type().(*types.Pointer).Elem().Underlying().(*types.Array); ok {
-						items = int(arr.Len())
+						return int(arr.Len())
 					}
 				}
 			}
-			checked := false
-			for _, ref := range *w.Referrers() {
-				if _, isB := ref.(*ssa.BinOp); isB {
-					checked = true
-				}
-				if _, isR := ref.(*ssa.Return); isR {
-					checked = true
-				}
-			}
-			if items > 1 && !checked {
-				okInd = false
-				detail = fmt.Sprintf("WriteAny at %s absorbs %d items in one call and ignores its error: it stops at the first item whose writer fails (the empty To of every broadcast), silently dropping all later fields from the hash", c.Pos(w.Pos()), items)
-			}
+			return -1
 		}
+		var scan func(f *ssa.Function, depth int)
+		scan = func(f *ssa.Function, depth int) {
+			allInstrs(f, func(in ssa.Instruction) {
+				w, ok := in.(*ssa.Call)
+				if !ok || w.Call.StaticCallee() == nil {
+					return
+				}
+				cal := w.Call.StaticCallee()
+				if cal.Pkg == nil || c.Rel(cal.Pkg.Pkg) != "pkg/hash" {
+					return
+				}
+				items := itemsOf(w)
+				switch cal.Name() {
+				case "New", "Fork":
+					// the items are absorbed inside the constructor: look at how it does that
+					if (items > 1 || items == -1) && depth < 2 {
+						scan(cal, depth+1)
+					}
+				case "WriteAny":
+					checked := false
+					for _, ref := range *w.Referrers() {
+						switch ref.(type) {
+						case *ssa.BinOp, *ssa.Return, *ssa.If:
+							checked = true
+						}
+					}
+					if (items > 1 || items == -1) && !checked {
+						okInd = false
+						n := fmt.Sprint(items)
+						if items == -1 {
+							n = "all its"
+						}
+						detail = fmt.Sprintf("WriteAny at %s absorbs %s items in one call and ignores its error: it stops at the first item whose writer fails (the empty To of every broadcast), silently dropping all later fields from the hash", c.Pos(w.Pos()), n)
+					}
+				}
+			})
+		}
+		scan(mh, 0)
 		r.Check("FS-2", "pkg/protocol.(*Message).Hash|independent-writes", c.Pos(mh.Pos()), okInd, "each header/content item is absorbed by its own write, so an empty optional field cannot cut the transcript short", detail)
 	}
 
